@@ -250,3 +250,89 @@ int ioctl(int fd, unsigned long request, ...) {
         real = dlsym(RTLD_NEXT, "ioctl");
     return real(fd, request, arg);
 }
+
+/* ------------------------------------------------------------------------
+ * Hand-off points (check C17, part E): libc functions whose result lives in
+ * static storage (getmntent, getutent).  A thread that called
+ * vf_handoff_arm(k) offers the processor to a partner thread right after its
+ * k-th (0-based) call of such a function has returned, i.e. while it holds a
+ * pointer into the static buffer, and waits (bounded) until the partner has
+ * made one complete call of the same API.  The partner needs the GIL to do
+ * that: if the extension still holds it (as it must while it uses the static
+ * buffer) the partner cannot move, the wait times out and the outcome is 0
+ * ("no such schedule exists"); if the extension released the GIL around the
+ * libc call the partner runs, outcome 1, and the armed thread goes on with a
+ * buffer the partner has overwritten.
+ */
+#include <mntent.h>
+#include <utmp.h>
+#include <semaphore.h>
+#include <time.h>
+
+static __thread int vf_armed = -1;
+static sem_t vf_go, vf_done;
+static int vf_inited = 0;
+static volatile int vf_outcome = -1;
+static int vf_wait_ms = 300;
+
+void vf_handoff_init(int wait_ms) {
+    if (vf_inited) {
+        sem_destroy(&vf_go);
+        sem_destroy(&vf_done);
+    }
+    sem_init(&vf_go, 0, 0);
+    sem_init(&vf_done, 0, 0);
+    vf_inited = 1;
+    vf_outcome = -1;
+    vf_wait_ms = wait_ms;
+}
+
+void vf_handoff_arm(int k) { vf_armed = k; }
+int vf_handoff_outcome(void) { return vf_outcome; }
+void vf_handoff_release(void) { sem_post(&vf_go); }
+void vf_handoff_done(void) { sem_post(&vf_done); }
+
+static int timed_wait(sem_t *s, int ms) {
+    struct timespec ts;
+    clock_gettime(CLOCK_REALTIME, &ts);
+    ts.tv_sec += ms / 1000;
+    ts.tv_nsec += (long)(ms % 1000) * 1000000L;
+    if (ts.tv_nsec >= 1000000000L) { ts.tv_sec++; ts.tv_nsec -= 1000000000L; }
+    for (;;) {
+        if (sem_timedwait(s, &ts) == 0) return 0;
+        if (errno != EINTR) return -1;
+    }
+}
+
+/* partner side: called through ctypes (which releases the GIL for the call) */
+int vf_handoff_wait(int ms) { return timed_wait(&vf_go, ms); }
+
+static void maybe_handoff(void) {
+    if (!vf_inited || vf_armed < 0)
+        return;
+    if (vf_armed-- > 0)
+        return;
+    vf_armed = -1;
+    sem_post(&vf_go);
+    vf_outcome = (timed_wait(&vf_done, vf_wait_ms) == 0) ? 1 : 0;
+}
+
+struct mntent *getmntent(FILE *stream) {
+    static struct mntent *(*real)(FILE *) = NULL;
+    struct mntent *r;
+    if (real == NULL)
+        real = (struct mntent *(*)(FILE *))dlsym(RTLD_NEXT, "getmntent");
+    r = real(stream);
+    maybe_handoff();
+    return r;
+}
+
+struct utmp *getutent(void) {
+    static struct utmp *(*real)(void) = NULL;
+    struct utmp *r;
+    if (real == NULL)
+        real = (struct utmp *(*)(void))dlsym(RTLD_NEXT, "getutent");
+    r = real();
+    maybe_handoff();
+    return r;
+}
